@@ -97,3 +97,16 @@ def random_content(rnd, n, state=None, rich_ok=True):
         else:
             out.append('dump')
     return out
+
+
+# mutators of harness/fileio_tables.hpp that can be applied one after the other to the same rich block in any order and
+# whose effect is outside the small tree both drivers print (attribute setters; data-frame cells): none deletes, none
+# creates an entity the small tree shows, none loops.  (Creation through the second File is exercised by `blk2`.)
+SAFE_MUTS = ['Block.type', 'Block.definition', 'Block.forceUpdatedAt', 'File.forceUpdatedAt', 'File.forceId', 'DataArray.type',
+             'DataArray.label.overwrite', 'DataArray.unit.overwrite', 'DataArray.expansionOrigin.overwrite', 'DataArray.label.new',
+             'DataArray.definition', 'Section.type', 'Section.repository.overwrite', 'Section.definition', 'Property.unit.overwrite',
+             'Property.uncertainty.overwrite', 'Property.definition.overwrite', 'Tag.type', 'Tag.position.overwrite',
+             'Tag.extent.overwrite', 'MultiTag.definition', 'MultiTag.type', 'Group.type', 'Source.definition', 'Source.type',
+             'Feature.linkType', 'SampledDimension.samplingInterval', 'SampledDimension.label.overwrite', 'RangeDimension.unit.overwrite',
+             'RangeDimension.label.overwrite', 'SetDimension.label.overwrite', 'DataFrame.type', 'DataFrame.writeCell',
+             'DataFrame.definition']
